@@ -109,6 +109,25 @@ theorem ed_noncanonical_s (A : Ed.EdPub) (msg sig : Bytes) (_hl : sig.length = 6
   · simp only
     rw [if_pos h]
 
+theorem leToNat_natToLeFixed (w v : Nat) (h : v < 256 ^ w) :
+    Ed.leToNat (Ed.natToLeFixed w v) = v := by
+  unfold Ed.leToNat Ed.natToLeFixed
+  rw [List.reverse_reverse, beToNat_natToBeFixed w v h]
+
+/-- The malleability twin `(R, s + ℓ)` of an ed25519 signature `(R, s)` is rejected, whatever the
+    group equation says. -/
+theorem ed_twin_rejected (A : Ed.EdPub) (msg rb : Bytes) (s : Nat) (hr : rb.length = 32)
+    (hs : s + Ed.ℓ < 256 ^ 32) :
+    Ed.verify A msg (rb ++ Ed.natToLeFixed 32 (s + Ed.ℓ)) = false := by
+  have hd : (rb ++ Ed.natToLeFixed 32 (s + Ed.ℓ)).drop 32 = Ed.natToLeFixed 32 (s + Ed.ℓ) := by
+    rw [← hr]; exact List.drop_left
+  apply ed_noncanonical_s
+  · rw [List.length_append, hr]
+    unfold Ed.natToLeFixed
+    rw [List.length_reverse, natToBeFixed_length]
+  · rw [hd, leToNat_natToLeFixed _ _ hs]
+    omega
+
 theorem edVerify_len (pk msg sig : Bytes) (h : sig.length ≠ 64) : edVerify pk msg sig = false := by
   unfold edVerify
   split
@@ -176,6 +195,7 @@ open EnrVerif
 #print axioms secpVerify_highS
 #print axioms ed_len
 #print axioms ed_noncanonical_s
+#print axioms ed_twin_rejected
 #print axioms edVerify_len
 #print axioms k256S_verify_len
 #print axioms libsecpS_verify_len
